@@ -255,7 +255,23 @@ pub(crate) fn value_of_correct_type(
             }
         }
         ast::Value::Object(obj) => match &type_definition {
-            schema::ExtendedType::Scalar(scalar) if !scalar.is_built_in() => {}
+            schema::ExtendedType::Scalar(scalar) if !scalar.is_built_in() => {
+                // Any literal is accepted, but the variables inside it must still be defined
+                let mut nested: Vec<&Node<ast::Value>> = obj.iter().map(|(_, v)| v).collect();
+                while let Some(value) = nested.pop() {
+                    match &**value {
+                        ast::Value::Variable(name) if !var_defs.iter().any(|v| v.name == *name) => {
+                            diagnostics.push(
+                                value.location(),
+                                DiagnosticData::UndefinedVariable { name: name.clone() },
+                            )
+                        }
+                        ast::Value::List(items) => nested.extend(items.iter()),
+                        ast::Value::Object(fields) => nested.extend(fields.iter().map(|(_, v)| v)),
+                        _ => {}
+                    }
+                }
+            }
             schema::ExtendedType::InputObject(input_obj) => {
                 let undefined_field = obj
                     .iter()
